@@ -16,12 +16,12 @@ Z3_VERSION = z3.get_version_string()
 
 
 def discharge(ob: Obligation, axioms: Sequence[Any], lib: SpecLib | None, timeout_ms: int, use_cvc5: bool = True,
-              input_terms: dict[str, Any] | None = None) -> Obligation:
+              input_terms: dict[str, Any] | None = None, lemma_rules: set[str] | None = None) -> Obligation:
     t0 = time.time()
     hyps = list(ob.hyps)
     inst_used: dict[str, int] = {}
     if lib is not None and ob.bank is not None:
-        insts, inst_used = instantiate(hyps + list(axioms), ob.goal, ob.bank, lib)
+        insts, inst_used = instantiate(hyps + list(axioms), ob.goal, ob.bank, lib, lemma_rules=lemma_rules)
         hyps = hyps + insts
     s = z3.Solver()
     s.set("timeout", timeout_ms)
